@@ -12,6 +12,7 @@ import OciModel.Driver.Sub
 import OciModel.Driver.WrapRO
 import OciModel.Driver.AuthFile
 import OciModel.Driver.Conc
+import OciModel.Driver.BlobReader
 
 structure DState where
   scopes : OciModel.Driver.Scope.Regs := []
@@ -31,6 +32,7 @@ def step (st : DState) (line : String) : DState × String :=
     let (m, out) := OciModel.Driver.Mem.drive st.mem rest
     ({ st with mem := m }, out)
   | "srv" :: _ => (st, "skip")
+  | "rd" :: rest => (st, OciModel.Driver.BlobReader.drive rest)
   | "conc" :: rest => (st, OciModel.Driver.Conc.drive rest)
   | "authfile" :: rest =>
     let (a, out) := OciModel.Driver.AuthFile.drive st.authfile rest
